@@ -409,6 +409,37 @@ func c20r3(c *RC) {
 			}
 			c.Check(okAll, fq+"|user-code-under-task-scope", pr.Pos(sc.Pos()), "task.Do is reachable before the context was scoped to the task")
 		}
+		// the scope is cleared before the task's code runs (a task that is run
+		// again on this machine — after a discard, a loss or a failure — must
+		// not add to what its earlier run counted)
+		{
+			var reset *ast.CallExpr
+			for _, k := range callsIn(fn.Body) {
+				if fn.Pkg.CalleeName(k) == "metrics.(*Scope).Reset" && len(k.Args) == 1 && expr(k.Args[0]) == "nil" && expr(k.Fun) == taskV+".Scope.Reset" {
+					reset = k
+				}
+			}
+			okAll, nDo := reset != nil, 0
+			for _, k := range callsIn(fn.Body) {
+				sel, ok := k.Fun.(*ast.SelectorExpr)
+				if !ok || pr.fieldQName(fn.Pkg.FieldOf(sel)) != "exec.Task.Do" {
+					continue
+				}
+				nDo++
+				if reset == nil {
+					continue
+				}
+				loc, _ := fl.LocOf(k)
+				dom, _ := fl.Dominated(loc, func(n ast.Node, s *Step) bool {
+					return nodeHas(n, func(m ast.Node) bool { return m == ast.Node(reset) })
+				})
+				if !dom {
+					okAll = false
+				}
+			}
+			c.Check(okAll && nDo > 0, fq+"|scope-cleared-before-run", pr.Pos(fn.Body.Pos()),
+				"the worker does not clear the task's metric scope before running the task: a task that is run again on the same machine (its output was discarded or lost, or the earlier attempt failed) adds to the counters of its earlier run, so the result reports increments twice")
+		}
 		// deferred reply.Scope.Reset(&task.Scope), installed once task is known
 		dl := false
 		for _, st := range fn.Body.List {
